@@ -2,8 +2,11 @@
 PROP = {'rule': 'rapid-generated cases. cacheHistory: state machine (~40 steps) over 1-3 nodes, up to 5 reservations (allocate-once or not, '
          'Default/Aligned/Restricted with optional restricted-resources option, inner-reserved annotation, labels, selector index on/off) '
          'and up to 10 pods with arbitrary requests, driven through reservationEventHandler.On*, podEventHandler.On*, '
-         'assumeReservation/forgetReservation, assumePod/forgetPods and the global handler\'s DeleteReservation (before, after or delayed '
-         'behind the plugin handler); non-trivial = history contains assign -> reservation becomes unavailable/unmatchable -> unassign, '
+         'the reservation\'s own Plugin.Reserve/Plugin.Unreserve of its reserve pod (real Plugin over the cache under test, lister fed '
+         'through the informer indexer, Unreserve also after the API delete), assumePod/forgetPods and the global handler\'s '
+         'DeleteReservation (before, after or delayed behind the plugin handler); reservation updates also narrow/widen/remove the '
+         'restricted-resources option and resize status.allocatable to another dimension set, the oracle masks to the CURRENT counted '
+         'dimensions; non-trivial = history contains assign -> reservation becomes unavailable/unmatchable -> unassign, '
          'or a reservation deleted while holding pods. fit: (reserved dims incl. optional pods, policy, restricted option, inner reserved, '
          '0-3 pods assigned through AddAssignedPod, preemptible amounts, request aimed at the exact boundary); non-trivial = some counted '
          'dimension requested within 1 unit of the remaining room. nominate: 1-3 reservations on 2 nodes, 2-5 scheduling cycles '
@@ -12,8 +15,10 @@ PROP = {'rule': 'rapid-generated cases. cacheHistory: state machine (~40 steps) 
          'reservation on the chosen node. ownerMatch: 0-3 owners (object ref / controller ref / label selector, any combination incl. '
          'the empty owner) x pod (name, namespace, uid, labels, 0-2 owner references) over small value pools; non-trivial = an owner with '
          '>=2 selectors ANDed or >=2 owners ORed. distinct = FNV-64 fingerprint of the full case (history).',
- 'assumptions': ['a reservation never changes node and its set of reserved dimensions (and restricted-resources option) is fixed for its '
-                 'lifetime; amounts, labels, phase, unschedulable, deletionTimestamp change freely',
+ 'assumptions': ['a reservation never changes node once Available; amounts, reserved dimension set, restricted-resources option, labels, '
+                 'phase, unschedulable, deletionTimestamp change freely (no webhook or CRD rule forbids it); the currently counted '
+                 'dimensions are those of status.allocatable while Available and of the template otherwise (ReservationRequests), '
+                 'narrowed by the restricted-resources option under the Restricted policy',
                  'pod events name a reservation that is in the cache at that moment, or one that never is (the pod and reservation informers '
                  'are independent; a pod event overtaking the add of its reservation is not generated)',
                  'per reservation event the plugin handler and the global frameworkext handler both run, in either order; the global '
